@@ -14,6 +14,18 @@ CLAIMED = {
         technique="call-graph reachability over resolved MIR (rustc_private driver) + dominance/provenance guards",
         design_ref="DESIGN.md section 4 C01, section 3 K1",
     ),
+    "C02": dict(
+        level="other",
+        text="Four necessary conditions of parse(print(P)) = P decided for all programs: every Quil::write reads every field of its type (type-directed field coverage, transitively through local callees); every keyword in the writers' un-expanded templates is a lexer spelling (strum attributes); each Instruction variant's printed command keyword is dispatched by parse_instruction to a parser constructing the same variant; f64 literal operands are not formatted through Display alone. Value-level number formatting, list separators and block layout are not decided.",
+        technique="field-coverage over MIR reads x ADT definitions; vocabulary/dispatch table agreement between syn templates, strum attributes and HIR match arms",
+        design_ref="DESIGN.md section 4 C02",
+    ),
+    "C07": dict(
+        level="other",
+        text="Effect confinement for the quote character: over all functions reachable from the Quil writers, a literal double quote (MIR constants and un-expanded templates, read independently) or a {:?} of a string may occur only inside QuotedString::fmt; the escape table of QuotedString::fmt and the lexer's replace list are checked to be inverse; every parser field filled from a string token must be written through QuotedString. The lexer's scanning loop is not decided; an un-escaper of unrecognised shape is reported undecided, not violated.",
+        technique="who-may-emit rule over MIR constants + syn templates on the monomorphic writer call graph; table extraction and inverse check",
+        design_ref="DESIGN.md section 4 C07",
+    ),
     "C05": dict(
         level="other",
         text="Static rules over the parse-reachable function set: no value-changing numeric cast and no undischarged overflow assert may exist there; every Token::Float construction is dominated by the finite side of is_finite on the same value; lexical Overflow/Underflow map to nom::Err::Failure; lexical float options must not be lossy. Decides that literal-derived values cannot be wrapped/truncated/backtracked on any input; the digit-to-value computation inside `lexical` is trusted.",
